@@ -375,15 +375,23 @@ def body_refs_cases(tier):
     for combo in itertools.product(targets, repeat=3):
         for start in names + ["Missing"]:
             out.append({"bodies": dict(zip(names, combo)), "start": start})
+    # the same graphs with component names that need percent-encoding inside a reference ("B 1" referenced as B%201):
+    # whatever the resolver makes of the escapes, it must terminate with a body or a diagnostic
+    for combo in itertools.product(targets, repeat=3):
+        for start in names + ["Missing"]:
+            out.append({"bodies": dict(zip(names, combo)), "start": start, "encoded": True})
     return out
 
 
 def body_refs(case):
     inline = {"content": {"application/json": {"schema": {"type": "string"}}}}
     rb = {}
+    enc = bool(case.get("encoded"))
+    key = (lambda n: n[0] + " " + n[1:]) if enc else (lambda n: n)
+    ref = (lambda n: n[0] + "%20" + n[1:]) if enc else (lambda n: n)
     for n, t in case["bodies"].items():
-        rb[n] = inline if t is None else {"$ref": f"#/components/requestBodies/{t}"}
-    doc = _base({"/x": {"post": {"operationId": "op", "requestBody": {"$ref": f"#/components/requestBodies/{case['start']}"},
+        rb[key(n)] = inline if t is None else {"$ref": f"#/components/requestBodies/{ref(t)}"}
+    doc = _base({"/x": {"post": {"operationId": "op", "requestBody": {"$ref": f"#/components/requestBodies/{ref(case['start'])}"},
                                  "responses": {"200": {"description": ""}}}}}, requestBodies=rb)
     try:
         data = _parse(doc, seconds=5)
@@ -394,6 +402,10 @@ def body_refs(case):
     if not hasattr(data, "endpoint_collections_by_tag"):
         return f"document rejected: {data}"
     eps = [e for c in data.endpoint_collections_by_tag.values() for e in c.endpoints]
+    if enc:
+        if not (eps and eps[0].bodies) and not _all_errors(data):
+            return "body reference with percent-escapes: neither a body nor a diagnostic"
+        return None
     # follow the chain by hand
     seen, cur = set(), case["start"]
     while True:
